@@ -51,6 +51,10 @@ let () =
   Drv_plain.register_plain 4 ttml_dec ttml_enc
     (fun d -> match xml_parse d with Some t -> doc_time_simple t | None -> false);
   register "ttmlopt" (fun r -> let d = rtdoc r in pint 0; ptdoc (ttml_optimize d));
+  register "ttmlrenderex" (fun r ->
+    let t = rxnode r in
+    pint (if t = render_ttml ex_rendering ex_model then 1 else 0);
+    ptdoc (denote_ttml ex_rendering ex_model));
   register "ttmlconst" (fun r -> pint (rint r));
   register "ttmltime" (fun r ->
     let s = rstr r in let fr = rz r in let tr = rz r in
@@ -65,6 +69,20 @@ let () =
     let ok = simple && doc_time_simple root
              && (match res with Ok d -> List.for_all (fun it -> in_range it.ti_st && in_range it.ti_en) d.td_items | _ -> true) in
     if ok then pres ptdoc res else (Buffer.add_string b "NS "; pres (fun _ -> ()) res));
+  register "xmlparse2" (fun r ->
+    match xml_parse2 (rstr r) with
+    | Some t -> pint 0; pxnode t
+    | None -> pint 1);
+  register "ttmlreadbytes2" (fun r ->
+    let simple = rbool r in
+    let data = rstr r in
+    match xml_parse2 data with
+    | Some t ->
+      let res = read_ttml t in
+      let ok = simple && doc_time_simple t
+               && (match res with Ok d -> List.for_all (fun it -> in_range it.ti_st && in_range it.ti_en) d.td_items | _ -> true) in
+      if ok then pres ptdoc res else (Buffer.add_string b "NS "; pres (fun _ -> ()) res)
+    | None -> Buffer.add_string b "NOPARSE");
   register "xmlparse" (fun r ->
     match xml_parse (rstr r) with
     | Some t -> pint 0; pxnode t
